@@ -10,6 +10,7 @@ import Driver.Deadline
 import Driver.TBF
 import Driver.BufSync
 import Driver.Delay
+import Driver.RDL
 
 def main (args : List String) : IO UInt32 := do
   match args with
@@ -26,4 +27,5 @@ def main (args : List String) : IO UInt32 := do
   | ["tbf"] => Driver.runComponent Driver.TBF.comp; return 0
   | ["bufsync"] => Driver.runComponent Driver.BufSync.comp; return 0
   | ["delay"] => Driver.runComponent Driver.Delay.comp; return 0
+  | ["rdl"] => Driver.runComponent Driver.RDL.comp; return 0
   | _ => IO.eprintln "usage: vdrv <component> [args]"; return 2
